@@ -1031,6 +1031,16 @@ func main() {
 			fail("GRPCBroker.Accept: muxer.Listener call or listenForKnocks goroutine not found")
 		}
 		def("accept_registers_listener_before_knock_goroutine", "bool", coqBool(pListen < pGo), "grpc_broker.go Accept (mux): muxer.Listener(id) precedes `go listenForKnocks`")
+		if lk := findFunc(grpcb, "GRPCBroker", "listenForKnocks"); lk != nil {
+			pDoor := posOfCall(lk, func(s string) bool { return s == "b.muxer.AcceptKnock" })
+			pAck := posOfCall(lk, func(s string) bool { return s == "b.streamer.Send" })
+			if pDoor == token.NoPos || pAck == token.NoPos {
+				fail("GRPCBroker.listenForKnocks: muxer.AcceptKnock or streamer.Send not found")
+			}
+			def("knock_opens_door_before_ack", "bool", coqBool(pDoor < pAck), "grpc_broker.go listenForKnocks: muxer.AcceptKnock(id) precedes the acknowledgement sent back to the dialler")
+		} else {
+			fail("GRPCBroker.listenForKnocks not found")
+		}
 	}
 
 	// ---- what wakes the host's blocking waits when the plugin dies (C03)
